@@ -100,6 +100,7 @@ theorem own_table_kept (s : AState α) (t : List (α × α)) (h : List (AOp α))
     cases op with
     | install t' => simp [AOp.keepsTable] at h1
     | setConstellation b => simp [AOp.keepsTable] at h1
+    | setConstellationCopy b => simp [AOp.keepsTable] at h1
     | fillC b v => exact ih _ (by simpa [aStep] using hs) h2
     | fillI b v => exact ih _ (by simpa [aStep] using hs) h2
     | demodulate b => exact ih _ (by simpa [aStep] using hs) h2
